@@ -79,7 +79,8 @@ def run(c):
     c.coverage["rule"] = (
         "load graphs written out as real .dawn trees and loaded with dawn.Load: 11 fixed small shapes (shared helper chain = D4, "
         "2/3-cycles behind one or two packages, self-load, BUILD files loading each other, diamond) + seeded graphs of 9 kinds "
-        "(chain, diamond, shared helper, n-cycle, self-load, cross-root, random DAG, random graph, several loaders of a module that "
+        "(chain, diamond, shared helper, n-cycle, self-load, cross-root, random DAG, random graph, a module of a REQUIRED project (in the module cache under a private HOME) with the same package and "
+        "file name as a local helper, several loaders of a module that "
         "cannot be fetched; 1-4 packages, <=9 modules). "
         "Reload sequences: Load, then the tree is edited (unchanged, a syntax error introduced and repaired, a module added, a load "
         "removed, a cycle introduced and removed) and the SAME Project is reloaded 1-3 times, under the controller and free-running; "
